@@ -153,7 +153,8 @@ impl C04 {
         cfg.max_terms = 5;
         let f = gen_function(rng, &cfg);
         let vname = variant_name(&f);
-        let nrep = 1 + rng.usize_below(4.min(pool.len()));
+        // 1..4 entries; occasionally the empty map (must return the function unchanged)
+        let nrep = if rng.chance(1, 25) { 0 } else { 1 + rng.usize_below(4.min(pool.len())) };
         let mut map = BTreeMap::new();
         let mut keys = pool.clone();
         rng.shuffle(&mut keys);
